@@ -692,8 +692,7 @@ class C05(Prop):
                "nested conditions: theorems hold for conditions that no enclosing, already processed condition has detached "
                "(C05_all_of_refuted_when_detached shows the hypothesis is necessary: finding nested-cond-detached)",
                "exactness of the forwarded exception for Process operands assumes the Process event's outcome is not overwritten "
-               "by program text calling succeed()/fail() on a live process (disjunct kproc in C05_cond_step)",
-               "RBroken of cond_build is excluded by hypothesis (clean_step) rather than proved unreachable"]
+               "by program text calling succeed()/fail() on a live process (disjunct kproc in C05_cond_step)"]
 
     knobs = {"w_cond": 7, "w_fail": 3, "w_trigger": 5, "w_wait_shared": 3, "w_timeout": 4, "w_interrupt": 1.0,
              "w_intr_then_spawn": 0.3, "w_interrupt_self": 0.1, "w_fine_pair": 0.3, "w_neg_delay": 0.1, "w_double_trigger": 0.5,
